@@ -9,6 +9,8 @@ plus store hygiene. (I4) "traversal visits every layer exactly once" is the theo
 theorems named `legacy_…` are the machine-checked counterexamples of the snapshot.
 -/
 import PsdVerif.Lemmas.TreeHistory
+import PsdVerif.Lemmas.TreeTable
+import PsdVerif.Generated.TreeTable
 
 namespace PsdVerif.C10
 open PsdVerif PsdVerif.TreeSt
@@ -157,5 +159,150 @@ theorem recursion_limit_after_mutation :
     (step .current s (.append 0 3)).2 = .error .recursionError ∧
     3 ∈ (step .current s (.append 0 3)).1.children 0 ∧ (step .current s (.append 0 3)).1.parent 3 = none := by
   decide
+
+
+/-! ### The mutators as the source writes them (regenerated table, `Model/TreeTable.lean`)
+
+`Generated/TreeTable.lean` lists every public structural mutator step by step (harness/extract_c10.py).
+`tableOk` is the decidable structural condition: (a) every validation precedes the mutation that uses its
+argument — directly — and nothing that can refuse comes after the first change of the tree unless the same facts
+were checked before it (in particular no per-item validate-and-mutate loop), (b) iterables are materialised once
+before they are validated and used, (c) every raw insertion into a container is directly followed by the pointer
+refresh of that container, which covers all descendants (document) and all children (parent), (d) every raw
+mutation of a container is followed by the record refresh of THAT container (for a move: source and destination),
+which marks the container's document, (e) nothing unclassified. -/
+
+open PsdVerif.TreeTable in
+/-- **the current source satisfies the structural condition** -/
+theorem current_tree_table_ok : tableOk Generated.TreeTable.table = true := by decide
+
+open PsdVerif.TreeTable in
+/-- the helper descriptions are the standard ones and the rows of the `GroupMixin` list mutators are the rows the
+transfer theorems are stated for -/
+theorem current_table_std : StdRows Generated.TreeTable.table = true := by decide
+
+open PsdVerif.TreeTable in
+/-- **one run of the table machine is the hand-written operation**, for any table with these rows -/
+theorem table_step_eq (t : Table) (h : StdRows t = true) (s : State) (op : Op) (hop : Op.listMutator op = true) :
+    tableStep t s op = step .current s op := tableStep_eq_step h s op hop
+
+open PsdVerif.TreeTable in
+/-- **invariant step for the table machine** (guard: inserted layers are detached), any table with these rows -/
+theorem table_inv_step (t : Table) (h : StdRows t = true) (s : State) (op : Op) (hop : Op.listMutator op = true)
+    (i : Inv s) (hg : Guard s op) (hne : (tableStep t s op).2 ≠ .error .recursionError) : Inv (tableStep t s op).1 := by
+  rw [tableStep_eq_step h s op hop] at hne ⊢
+  exact inv_step s op i hg hne
+
+open PsdVerif.TreeTable in
+/-- **a refusal of the table machine leaves the tree unchanged**, any table with these rows -/
+theorem table_refused_unchanged (t : Table) (h : StdRows t = true) (s : State) (op : Op) (hop : Op.listMutator op = true)
+    (e : Err) (i : Inv s) (he : (tableStep t s op).2 = .error e) (hne : e ≠ .recursionError) :
+    SameTree s (tableStep t s op).1 := by
+  rw [tableStep_eq_step h s op hop] at he ⊢
+  exact step_ref s op e i he hne
+
+/-- non-vacuity: the current table, a guarded accepted insertion -/
+example : (PsdVerif.TreeTable.tableStep Generated.TreeTable.table demo (.append 2 3)).2 = .none ∧
+    (PsdVerif.TreeTable.tableStep Generated.TreeTable.table demo (.append 2 3)).1.children 2 = [3] := by decide
+
+/-! #### each clause of `tableOk` is needed: a table violating it, and what its machine does -/
+
+section Witness
+open PsdVerif.TreeTable
+
+def wt (r : Row) : Table := ⟨[r], .std, .std, .std⟩
+
+/-- (a) validation AFTER the mutation -/
+def lateCheck : Row :=
+  ⟨"GroupMixin.extend", [.line [.mat "layers_1" (.list "layers") "layers" [],
+      .mutate (.var "self") (.extend (.list "layers_1")) [], .validate (.var "self") (.list "layers_1") [],
+      .refresh (.var "self") [], .dirty (.var "self") []]], ""⟩
+
+/-- `g.extend([g])` is refused, and `g` lists itself -/
+theorem validation_after_mutation : tableOk (wt lateCheck) = false ∧
+    (tableStep (wt lateCheck) demo (.extend 2 [2])).2.isError = true ∧
+    2 ∈ (tableStep (wt lateCheck) demo (.extend 2 [2])).1.children 2 := by decide
+
+/-- (a) a per-item loop: validate and mutate item by item -/
+def perItem : Row :=
+  ⟨"GroupMixin.extend", [.line [.mat "layers_1" (.list "layers") "layers" []],
+    .loop "layer" "layers_1" [.validate (.var "self") (.single (.var "layer")) [],
+      .mutate (.var "self") (.extend (.single (.var "layer"))) [], .refresh (.var "self") [], .dirty (.var "self") []]], ""⟩
+
+/-- `g.extend([x, g])` is refused after `x` was listed: non-atomic -/
+theorem per_item_loop_not_atomic : tableOk (wt perItem) = false ∧
+    (tableStep (wt perItem) demo (.extend 2 [3, 2])).2 = .error .assertionError ∧
+    (tableStep (wt perItem) demo (.extend 2 [3, 2])).1.children 2 = [3] ∧
+    (tableStep (wt rowExtend) demo (.extend 2 [3, 2])).1.children 2 = [] := by decide
+
+/-- (b) no materialisation: the validation consumes a generator -/
+def noMat : Row :=
+  ⟨"GroupMixin.extend", [.line [.validate (.var "self") (.list "layers") [],
+      .mutate (.var "self") (.extend (.list "layers")) [], .refresh (.var "self") [], .dirty (.var "self") []]], ""⟩
+
+/-- `g.extend(x for x in [x])` is accepted and lists nothing; as the library writes it, it lists `x` -/
+theorem generator_consumed_by_validation : tableOk (wt noMat) = false ∧
+    (runRow (wt noMat) "GroupMixin.extend" demo [("self", vObj 2), ("layers", .list [3] true)]).2 = .none ∧
+    (runRow (wt noMat) "GroupMixin.extend" demo [("self", vObj 2), ("layers", .list [3] true)]).1.children 2 = [] ∧
+    (runRow (wt rowExtend) "GroupMixin.extend" demo [("self", vObj 2), ("layers", .list [3] true)]).1.children 2 = [3] := by
+  decide
+
+/-- document 0; loose group 1 listing layer 2 (neither has a document) -/
+def loose : State :=
+  runState .current (State.empty 50) [.newDoc ⟨0, 0, 8, 8⟩, .newGroup none, .newLayer none ⟨0, 0, 2, 2⟩, .append 1 2]
+
+/-- (c) the pointer refresh assigns the document over the children only -/
+def childrenOnly : Table := ⟨[rowAppend], .std, { Refresh.std with psdOver := .children }, .std⟩
+
+theorem refresh_over_wrong_set : tableOk childrenOnly = false ∧
+    (tableStep childrenOnly loose (.append 0 1)).2 = .none ∧
+    (tableStep childrenOnly loose (.append 0 1)).1.psd 1 = some 0 ∧
+    (tableStep childrenOnly loose (.append 0 1)).1.psd 2 = none ∧
+    (tableStep (wt rowAppend) loose (.append 0 1)).1.psd 2 = some 0 := by decide
+
+/-- (c) no pointer refresh after the insertion -/
+def noRefresh : Row :=
+  ⟨"GroupMixin.append", [.line [.assert (.ne (.var "layer") (.var "self")) [] [],
+      .mat "layers_1" (.single (.var "layer")) "[layer]" [], .validate (.var "self") (.list "layers_1") [],
+      .mutate (.var "self") (.extend (.list "layers_1")) [], .dirty (.var "self") []]], ""⟩
+
+theorem refresh_missing : tableOk (wt noRefresh) = false ∧
+    3 ∈ (tableStep (wt noRefresh) demo (.append 2 3)).1.children 2 ∧
+    (tableStep (wt noRefresh) demo (.append 2 3)).1.parent 3 = none := by decide
+
+/-- documents 0 and 1, layer 2 listed in document 0, nothing marked edited -/
+def twoDocs : State :=
+  { runState .current (State.empty 50) [.newDoc ⟨0, 0, 8, 8⟩, .newDoc ⟨0, 0, 8, 8⟩, .newLayer (some 0) ⟨0, 0, 2, 2⟩,
+      .append 0 2] with dirty := fun _ => false }
+
+/-- (d) `move_to_group` detaching with the raw list operation only: the record refresh is made on the destination -/
+def destOnly : Row :=
+  ⟨"Layer.move_to_group", [.line [.assert (.isGroup (.var "group")) [] [], .assert (.ne (.var "group") (.var "self")) [] [],
+      .test 2 (.and (.notNone (.parent (.var "self"))) (.isGroup (.parent (.var "self")))) [],
+      .test 3 (.listedIn (.var "self") (.parent (.var "self"))) [(2, true)],
+      .mutate (.parent (.var "self")) (.remove (.var "self")) [(2, true), (3, true)],
+      .mat "layers_1" (.single (.var "self")) "[self]" [], .validate (.var "group") (.list "layers_1") [],
+      .mutate (.var "group") (.extend (.list "layers_1")) [], .refresh (.var "group") [], .dirty (.var "group") []]], "self"⟩
+
+/-- the layer left document 0, which is not marked edited (a save would write the old tree) -/
+theorem source_document_not_marked : tableOk (wt destOnly) = false ∧
+    (tableStep (wt destOnly) twoDocs (.moveToGroup 2 1)).2 = .id 2 ∧
+    (tableStep (wt destOnly) twoDocs (.moveToGroup 2 1)).1.children 0 = [] ∧
+    (tableStep (wt destOnly) twoDocs (.moveToGroup 2 1)).1.dirty 0 = false ∧
+    (tableStep (wt destOnly) twoDocs (.moveToGroup 2 1)).1.dirty 1 = true ∧
+    (tableStep Generated.TreeTable.table twoDocs (.moveToGroup 2 1)).1.dirty 0 = true := by decide
+
+/-- (d) `_update_psd_record` no longer sets `_updated_layers` -/
+theorem record_refresh_not_marking : tableOk ⟨[rowAppend], .std, .std, ⟨false⟩⟩ = false ∧
+    (tableStep ⟨[rowAppend], .std, .std, ⟨false⟩⟩ twoDocs (.append 1 2)).1.dirty 1 = false := by decide
+
+/-- `_check_valid_layers` without the descendants test: a group is listed below itself -/
+theorem check_without_loop_test : tableOk ⟨[rowAppend], { Check.std with noLoop := false, exact := false }, .std, .std⟩ = false ∧
+    (let s := (step .current demo (.append 2 3)).1
+     let s' := (step .current (step .current s (.newGroup (some 2))).1 (.setAttr 0)).1
+     (tableStep ⟨[rowAppend], { Check.std with noLoop := false, exact := false }, .std, .std⟩ s' (.append 4 2)).2 ≠ .error .assertionError) := by
+  decide
+
+end Witness
 
 end PsdVerif.C10
